@@ -1,5 +1,6 @@
 SPECIFICATION TraceSpec
 CONSTANTS Widths = {} MaxH = 8 MaxOwn = 100 LimbDom = {0} IdWidths = {}
+  MsgDom <- CMsgDom TextDom <- CTextDom
 INVARIANTS TypeOK Refines
 PROPERTIES SendsRight Final Accepted RefusedAfter RejectKeeps DefaultOnRelease ArmFrame IdTiers
 POSTCONDITION TraceAccepted
